@@ -69,11 +69,23 @@ package ports
 //@ ghost var lastSecRetryAfter int
 //@ ghost var lastSecReason string
 //@ ghost var lastSecErr error
-//@ interface SecurityValidator.Validate
+// valCalls / valDenials: validator verdicts so far (a denial: an error, or a result that is not Allowed)
+//@ ghost var valCalls int
+//@ ghost var valDenials int
+//@ interface SecurityValidator.Validate(ctx, req)
+//@   modifies gvar valCalls, gvar valDenials
+//@   records valCalls = old(valCalls) + 1
+//@   records valDenials = old(valDenials) + ite(res1 != nil || !res0.Allowed, 1, 0)
 
+// the chain: every validator is asked in turn until one denies; the chain allows exactly when none of them denied,
+// and it hands back the first denial as it is
 //@ func (sc *SecurityChain) Validate
 //@   property C17
-//@   loop 1 invariant true
+//@   requires sc != nil && (forall k int :: 0 <= k && k < len(sc.validators) ==> sc.validators[k] != nil)
+//@   modifies gvar valCalls, gvar valDenials
+//@   loop 1 invariant valDenials == old(valDenials) && valCalls == old(valCalls) + i$1
+//@   ensures res1 == nil && res0.Allowed ==> valDenials == old(valDenials) && valCalls == old(valCalls) + len(sc.validators)
+//@   ensures valDenials == old(valDenials) || (valDenials == old(valDenials) + 1 && (res1 != nil || !res0.Allowed))
 //@   records secCount = old(secCount) + 1
 //@   records lastSecClientID = req.ClientID
 //@   records lastSecAllowed = res0.Allowed
